@@ -321,4 +321,16 @@ def r6_seeds_per_parse(a, tier):
     return rep
 
 
-RULES = [r_chain, r1_seed_loop, r2_flag_transfer, r3a, r3b, r3c, r3d, r_replay, r5_seeds_never_evicted, r6_seeds_per_parse]
+def r7_seed_store_owners(a, tier):
+    """the seeds of a growing left recursion are removed only by their owners: a pruner (cut) that deletes the seed of a rule still
+    growing at an earlier position makes the next call of that rule start a new growth loop, without bound"""
+    from . import c04
+    rep = c04.r2_ownership(a, tier)
+    rep.rule = 'C03.R7'
+    for f in rep.findings:
+        f.rule = 'C03.R7'
+    rep.text = '[= C04.R2] ' + rep.text
+    return rep
+
+
+RULES = [r_chain, r1_seed_loop, r2_flag_transfer, r3a, r3b, r3c, r3d, r_replay, r5_seeds_never_evicted, r6_seeds_per_parse, r7_seed_store_owners]
